@@ -936,7 +936,7 @@ fn check_view<P: Props + ?Sized>(r: &mut Report, cx: &Cx, p: &P, view: &str) -> 
     // visitor was handed, and (when the case has a shared key buffer) every occurrence of the
     // probe's text inside that buffer. Keys are compared by content in the model.
     {
-        let mut alias_lookup = |r: &mut Report, how: &str, key: Str, text: &str| {
+        let alias_lookup = |r: &mut Report, how: &str, key: Str, text: &str| {
             let want = first.get(text).map(|i| &list[*i].1);
             let got = p.get(key).map(|v| fp(&v));
             r.observe("lookups-with-aliased-keys", 1);
@@ -2017,6 +2017,289 @@ fn macro_sites(r: &mut Report) {
 }
 
 // ---------------------------------------------------------------------------
+// ambient-context snapshots whose keys are overridden by nested frames in another representation
+// ---------------------------------------------------------------------------
+
+/// A value as a frame is handed it: the ids as the TYPED values every active span pushes, or as
+/// any other representation the id parsers accept (hex text, integers, a Display value), or junk.
+#[derive(Clone, Debug)]
+enum AVal {
+    Trace(TraceId),
+    Span(SpanId),
+    Text(String),
+    Shown(String),
+    U128(u128),
+    U64(u64),
+    Plain(Val),
+}
+
+impl ToValue for AVal {
+    fn to_value(&self) -> Value<'_> {
+        match self {
+            AVal::Trace(v) => v.to_value(),
+            AVal::Span(v) => v.to_value(),
+            AVal::Text(v) => v.to_value(),
+            AVal::Shown(v) => Value::from_display(v),
+            AVal::U128(v) => v.to_value(),
+            AVal::U64(v) => v.to_value(),
+            AVal::Plain(v) => v.to_value(),
+        }
+    }
+}
+
+#[derive(Clone, Copy, Debug, PartialEq)]
+enum LevelKind {
+    Push,
+    Root,
+    Disabled,
+    /// `SpanCtxt::current(ctxt).new_child(rng).push(ctxt)`: the frame a span opens
+    SpanCtxtPush,
+    /// a real `#[emit::span]` function on the shared context
+    MacroSpan,
+}
+
+#[derive(Clone, Debug)]
+struct Level {
+    kind: LevelKind,
+    entries: Vec<(String, AVal)>,
+}
+
+struct AmbRng;
+
+static AMB_RNG: AtomicU64 = AtomicU64::new(1);
+
+impl emit::Rng for AmbRng {
+    fn fill<A: AsMut<[u8]>>(&self, mut arr: A) -> Option<A> {
+        let n = AMB_RNG.fetch_add(1, Ordering::Relaxed) | 1;
+        for (i, b) in arr.as_mut().iter_mut().enumerate() {
+            *b = n.to_le_bytes()[i % 8];
+        }
+        Some(arr)
+    }
+}
+
+static AMB_RT: emit::runtime::Runtime<Empty, Empty, ThreadLocalCtxt, Empty, AmbRng> =
+    emit::runtime::Runtime::build(Empty, Empty, ThreadLocalCtxt::shared(), Empty, AmbRng);
+
+#[emit::span(rt: AMB_RT, "ambient span {n}")]
+fn in_real_span(n: i32, body: &mut dyn FnMut()) {
+    body()
+}
+
+const ORDINARY: [&str; 5] = ["a", "user", "k.1", "lvl", ""];
+
+fn gen_aval(g: &mut Rng, key: &str, next: &mut i64) -> AVal {
+    *next += 1;
+    let n: u64 = *g.pick(&[1, 2, 0x2a, 0xdead_beef_0000_0001]);
+    if ID_KEYS.contains(&key) {
+        let trace = key == "trace_id";
+        return match g.below(12) {
+            0..=3 if trace => AVal::Trace(TraceId::from_u128(n as u128).unwrap()),
+            0..=3 => AVal::Span(SpanId::from_u64(n).unwrap()),
+            // the same id (often the very same text as a typed value elsewhere) as hex text
+            4 | 5 if trace => AVal::Text(format!("{:032x}", n)),
+            4 | 5 => AVal::Text(format!("{:016x}", n)),
+            6 if trace => AVal::U128(n as u128),
+            6 => AVal::U64(n),
+            7 if trace => AVal::Shown(format!("{:032X}", n)),
+            7 => AVal::Shown(format!("{:016x}", n)),
+            // the other id's width, or not an id at all
+            8 if trace => AVal::Text(format!("{:016x}", n)),
+            8 => AVal::Text(format!("{:032x}", n)),
+            9 => AVal::Text(g.pick(&["not-an-id", "", "0000000000000000", "zz"]).to_string()),
+            10 if trace => AVal::Span(SpanId::from_u64(n).unwrap()),
+            10 => AVal::Trace(TraceId::from_u128(n as u128).unwrap()),
+            _ => AVal::Plain(g.pick(&[Val::Null, Val::B(true), Val::I(-1), Val::F(0.5)]).clone()),
+        };
+    }
+    match g.below(6) {
+        0 | 1 => AVal::Plain(Val::I(1000 + *next)),
+        2 => AVal::Plain(Val::S(format!("s{}", next))),
+        3 => AVal::Text(format!("{}", 1000 + *next - 1)),
+        4 => AVal::Plain(g.pick(&[Val::B(false), Val::F(1.5), Val::Null, Val::U(u64::MAX)]).clone()),
+        _ => AVal::Shown(format!("shown{}", next)),
+    }
+}
+
+fn gen_levels(g: &mut Rng, shared: bool) -> Vec<Level> {
+    let n = 1 + g.usize(4);
+    let mut next = 0;
+    (0..n)
+        .map(|_| {
+            let kind = match g.below(10) {
+                0..=4 => LevelKind::Push,
+                5 => LevelKind::Root,
+                6 => LevelKind::Disabled,
+                7 | 8 => LevelKind::SpanCtxtPush,
+                _ if shared => LevelKind::MacroSpan,
+                _ => LevelKind::Push,
+            };
+            let m = if kind == LevelKind::MacroSpan { 0 } else { g.usize(4) };
+            let mut entries: Vec<(String, AVal)> = Vec::new();
+            for _ in 0..m {
+                let key = if g.chance(3, 5) { *g.pick(&ID_KEYS) } else { *g.pick(&ORDINARY) };
+                if !entries.iter().any(|(k, _)| k == key) {
+                    entries.push((key.to_string(), gen_aval(g, key, &mut next)));
+                }
+            }
+            Level { kind, entries }
+        })
+        .collect()
+}
+
+/// Whether some key holds a typed id at one level and another representation at a later one.
+fn overrides_typed(levels: &[Level]) -> bool {
+    let mut typed: BTreeSet<&str> = BTreeSet::new();
+    for l in levels {
+        match l.kind {
+            LevelKind::Root => typed.clear(),
+            LevelKind::Disabled => continue,
+            LevelKind::SpanCtxtPush | LevelKind::MacroSpan => {
+                typed.insert("trace_id");
+                typed.insert("span_id");
+            }
+            LevelKind::Push => {}
+        }
+        for (k, v) in &l.entries {
+            match v {
+                AVal::Trace(_) | AVal::Span(_) => {
+                    typed.insert(k);
+                }
+                _ if typed.contains(k.as_str()) => return true,
+                _ => {}
+            }
+        }
+    }
+    false
+}
+
+fn in_levels<C: Ctxt + Copy>(ctxt: C, levels: &[Level], k: &mut dyn FnMut()) {
+    let Some((l, rest)) = levels.split_first() else {
+        return k();
+    };
+    let mut next = || in_levels(ctxt, rest, k);
+    match l.kind {
+        LevelKind::Push => Frame::push(ctxt, &l.entries[..]).call(next),
+        LevelKind::Root => Frame::root(ctxt, &l.entries[..]).call(next),
+        LevelKind::Disabled => Frame::disabled(ctxt, &l.entries[..]).call(next),
+        LevelKind::SpanCtxtPush => {
+            let sc = SpanCtxt::current(ctxt).new_child(AmbRng);
+            sc.push(ctxt).call(|| {
+                if l.entries.is_empty() {
+                    next()
+                } else {
+                    Frame::push(ctxt, &l.entries[..]).call(next)
+                }
+            })
+        }
+        LevelKind::MacroSpan => in_real_span(rest.len() as i32, &mut next),
+    }
+}
+
+struct AmbCase<'a> {
+    probes: &'a [String],
+    text: &'a str,
+    seed: u64,
+    index: u64,
+    shape: &'a str,
+}
+
+fn ambient_check<P: Props>(r: &mut Report, a: &AmbCase, form: &str, cur: &P) {
+    r.eval();
+    r.observe("ambient-snapshots", 1);
+    let (mut typed, mut other_ids) = (0, 0);
+    let _ = cur.for_each(|k, v| {
+        if v.downcast_ref::<TraceId>().is_some() || v.downcast_ref::<SpanId>().is_some() {
+            typed += 1;
+        } else if ID_KEYS.contains(&k.get()) {
+            other_ids += 1;
+        }
+        ControlFlow::Continue(())
+    });
+    if typed > 0 {
+        r.observe("ambient-snapshots-holding-typed-ids", 1);
+    }
+    if other_ids > 0 {
+        r.observe("ambient-snapshots-holding-an-id-key-in-another-representation", 1);
+    }
+    let kind = format!("ambient-snapshot:{}", form);
+    let case = || json!({"section": "ambient", "seed": a.seed, "index": a.index, "form": form, "levels": a.text});
+    let cx = Cx {
+        kind: &kind,
+        probes: a.probes,
+        buf: "",
+        case: &case,
+    };
+    match catch(|| check_all(r, &cx, cur)) {
+        Ok(f) => note_facts(r, &f, &format!("{}:{}", form, a.shape)),
+        Err(msg) => viol(r, &cx, "panic", "any", format!("panicked: {}", msg)),
+    }
+}
+
+/// The snapshot forms every context offers: live inside `with_current`, and a captured
+/// `Frame::current` entered after every scope that built it has been left.
+fn ambient_forms<C: Ctxt + Copy>(r: &mut Report, a: &AmbCase, ctxt: C, which: &str, levels: &[Level])
+where
+    C::Current: Sized,
+{
+    in_levels(ctxt, levels, &mut || ctxt.with_current(|cur| ambient_check(r, a, &format!("live-with_current-{}", which), cur)));
+    let mut captured: Option<Frame<C>> = None;
+    in_levels(ctxt, levels, &mut || captured = Some(Frame::current(ctxt)));
+    if let Some(mut f) = captured {
+        f.with(|cur| ambient_check(r, a, &format!("captured-frame-with-{}", which), cur));
+        let _entered = f.enter();
+        ctxt.with_current(|cur| ambient_check(r, a, &format!("captured-frame-entered-later-{}", which), cur));
+    }
+}
+
+fn ambient_case(r: &mut Report, seed: u64, i: u64) {
+    let mut g = Rng::stream(seed, &[2, 3, i]);
+    let which = g.below(4);
+    let levels = gen_levels(&mut g, which == 1);
+    let text = format!("{:?}", levels);
+    let mut probes: Vec<String> = ID_KEYS.iter().chain(ORDINARY.iter()).chain(NEVER.iter().take(2)).map(|s| s.to_string()).collect();
+    probes.extend(["evt_kind", "span_name"].iter().map(|s| s.to_string()));
+    let shape = format!("{:?}", levels.iter().map(|l| (l.kind, l.entries.iter().map(|(k, v)| (ID_KEYS.contains(&k.as_str()), std::mem::discriminant(v))).collect::<Vec<_>>())).collect::<Vec<_>>());
+    let a = AmbCase {
+        probes: &probes,
+        text: &text,
+        seed,
+        index: i,
+        shape: &shape,
+    };
+    r.observe("ambient-scenarios", 1);
+    if overrides_typed(&levels) {
+        r.observe("ambient-scenarios-overriding-a-typed-id-with-another-representation", 1);
+    }
+    let own = tl();
+    match which {
+        0 => ambient_forms(r, &a, own, "own", &levels),
+        1 => ambient_forms(r, &a, ThreadLocalCtxt::shared(), "shared", &levels),
+        2 => {
+            let erased: &dyn emit::ctxt::ErasedCtxt = &own;
+            ambient_forms(r, &a, erased, "erased", &levels)
+        }
+        _ => {
+            // a captured frame carried to another thread, and the frame itself as a collection
+            let mut captured: Option<Frame<ThreadLocalCtxt>> = None;
+            in_levels(own, &levels, &mut || captured = Some(Frame::current(own)));
+            if let Some(f) = captured {
+                ambient_check(r, &a, "captured-frame-inner-own", f.inner());
+                let mut child = r.child();
+                std::thread::scope(|s| {
+                    let child = &mut child;
+                    let a = &a;
+                    let _ = s
+                        .spawn(move || f.call(|| own.with_current(|cur| ambient_check(child, a, "captured-frame-on-another-thread-own", cur))))
+                        .join();
+                });
+                r.merge(child);
+            }
+        }
+    }
+}
+
+// ---------------------------------------------------------------------------
 // main
 // ---------------------------------------------------------------------------
 
@@ -2085,9 +2368,21 @@ fn main() {
         match case.get("section").and_then(|v| v.as_str()) {
             Some("dynamic") => dynamic_case(&mut r, seed, index),
             Some("static") => static_case(&mut r, seed, index, case.get("shape").and_then(|v| v.as_str())),
+            Some("ambient") => ambient_case(&mut r, seed, index),
             _ => macro_sites(&mut r),
         }
         std::process::exit(r.finish());
+    }
+
+    // the real-span level of the ambient section must really push typed ids
+    {
+        let mut typed = false;
+        in_real_span(0, &mut || {
+            ThreadLocalCtxt::shared().with_current(|cur| typed = cur.get("span_id").map(|v| v.downcast_ref::<SpanId>().is_some()).unwrap_or(false))
+        });
+        if !typed {
+            r.inconclusive("an #[emit::span] function on the monitor's runtime did not push a typed span_id: the ambient section lacks its real-span frames");
+        }
     }
 
     let seed = args.seed;
@@ -2108,8 +2403,12 @@ fn main() {
     let n_static = if miri { 1 } else { args.n(1_000, 30_000) };
     par_cases(&mut r, &args, n_static, |i, r| static_case(r, seed, i, None));
 
+    // 2b. ambient snapshots with overridden (typed) ids
+    let n_amb = if miri { (3 * args.scale / 100).max(1) } else { args.n(12_000, 400_000) };
+    par_cases(&mut r, &args, n_amb, |i, r| ambient_case(r, seed, i));
+
     // 3. dynamic trees
-    let n_dyn = if miri { (5 * args.scale / 100).max(1) } else { args.n(150_000, 6_000_000) };
+    let n_dyn = if miri { (5 * args.scale / 100).max(1) } else { args.n(130_000, 5_400_000) };
     par_cases(&mut r, &args, n_dyn, |i, r| dynamic_case(r, seed, i));
 
     std::process::exit(r.finish());
